@@ -342,7 +342,7 @@ void BasicPLApproximator<FuncCon>::ConsiderIntegrality() {
     auto x0=std::ceil(laPrm_.grDomOut.lbx);
     auto xN=std::floor(laPrm_.grDomOut.ubx);
     auto N = int(xN - x0 + 1);
-    if (N <= laPrm_.plPoints.size()) {
+    if (N >= 1 && N <= laPrm_.plPoints.size()) {
       laPrm_.plPoints.clear();
       for (int k=0; k<N; ++k)       // use double + int
         laPrm_.plPoints.AddPoint(x0+k, eval(x0+k));
